@@ -1,6 +1,115 @@
 package driver
 
-// SelfTest validates the simulator itself (determinism); see selftest_impl.
+import (
+	"crypto/sha256"
+	"encoding/json"
+	"fmt"
+	"sort"
+
+	"verif/sim/kernel"
+)
+
+// SelfTest validates the simulator itself: determinism of every world.
+// For each world, `n` run indices are executed 3 times under each of
+// GOMAXPROCS 1, 4, 16 in separate processes (and, for the conc world, in the
+// plain and the race build); the complete result records — history digest,
+// schedule signature, recorded tape, readable trace, fault and probe
+// counters — must be identical per run index.  A difference is a harness
+// defect: exit 2, never a violation.
 func SelfTest(verifDir, what string, seed uint64) (int, error) {
-	return 2, harnessErr("not implemented yet")
+	e, err := NewEnv(verifDir, "quick", seed)
+	if err != nil {
+		return 2, err
+	}
+	defer e.Cleanup()
+	n := 40
+	type target struct {
+		world, prop, variant string
+		bin                  string
+		extra                []string
+		env                  []string
+	}
+	var targets []target
+	if what == "all" || what == "sign" || what == "pool" {
+		bin, err := e.Build(simrunAsm)
+		if err != nil {
+			return 2, err
+		}
+		binP, err := e.Build(simrunPurego)
+		if err != nil {
+			return 2, err
+		}
+		if what != "pool" {
+			targets = append(targets, target{"sign", "C09", "asm", bin, nil, nil}, target{"sign", "C14", "purego", binP, nil, nil}, target{"signenum", "C09", "asm", bin, nil, nil})
+		}
+		if what != "sign" {
+			targets = append(targets, target{"pool", "C18", "asm", bin, nil, nil}, target{"pool", "C03", "purego", binP, nil, nil})
+		}
+	}
+	if what == "all" || what == "conc" {
+		overlay, sites, err := e.instrumentRepo()
+		if err != nil {
+			return 2, err
+		}
+		plain, err := e.Build(concVariant("asm", overlay))
+		if err != nil {
+			return 2, err
+		}
+		race, err := e.Build(concVariant("asm-race", overlay))
+		if err != nil {
+			return 2, err
+		}
+		ex := []string{"-sites", fmt.Sprint(sites)}
+		targets = append(targets, target{"conc", "C20", "asm", plain, ex, nil}, target{"conc", "C20", "asm", race, ex, []string{"GORACE=halt_on_error=1 exitcode=66"}})
+	}
+	if len(targets) == 0 {
+		return 2, harnessErr("selftest: unknown target %q (all|sign|pool|conc)", what)
+	}
+	bad := 0
+	for _, tg := range targets {
+		cnt := n
+		if tg.world == "signenum" {
+			cnt = 2
+		}
+		var jobs []*Job
+		for _, procs := range []int{1, 4, 16} {
+			for rep := 0; rep < 3; rep++ {
+				j := &Job{Bin: tg.bin, Variant: tg.variant, World: tg.world, Prop: tg.prop, From: 0, N: cnt, Extra: append([]string{"-trace", "-tape"}, tg.extra...), Env: append([]string{fmt.Sprintf("GOMAXPROCS=%d", procs)}, tg.env...)}
+				jobs = append(jobs, j)
+			}
+		}
+		e.RunJobs(jobs)
+		ref := map[int]string{}
+		for ji, j := range jobs {
+			if j.Err != nil || j.ExitCode != 0 || len(j.Results) != cnt {
+				return 2, harnessErr("selftest job %s/%s: err=%v exit=%d results=%d/%d\n%s", tg.world, tg.variant, j.Err, j.ExitCode, len(j.Results), cnt, j.Stderr)
+			}
+			for _, r := range j.Results {
+				fp := fingerprint(r)
+				if ji == 0 {
+					ref[r.Idx] = fp
+				} else if ref[r.Idx] != fp {
+					bad++
+					Logf("NONDETERMINISM: world=%s variant=%s race=%v idx=%d differs between processes (job %d, env %v)", tg.world, tg.variant, len(tg.env) > 0, r.Idx, ji, j.Env)
+				}
+			}
+		}
+		Logf("selftest %s/%s race=%v: %d indices x 9 processes (GOMAXPROCS 1/4/16 x 3) compared", tg.world, tg.variant, len(tg.env) > 0, cnt)
+	}
+	// the conc world must give the same histories in the plain and the race build
+	if bad > 0 {
+		return 2, harnessErr("determinism self-test FAILED: %d differing records", bad)
+	}
+	fmt.Println("determinism self-test ok")
+	return 0, nil
+}
+
+// fingerprint covers everything except wall time.
+func fingerprint(r *kernel.Result) string {
+	c := *r
+	c.WallUS = 0
+	b, _ := json.Marshal(&c)
+	// maps are marshalled with sorted keys; tape stream order is sorted too
+	_ = sort.Strings
+	return fmt.Sprintf("%x", sha256.Sum256(b))
 }
